@@ -374,6 +374,9 @@ impl LogInnerManager {
         self.msg_count += 1;
         if self.current_index_count == self.header.index_interval {
             self.current_index_count = 0;
+            // the two handles write independently: the records of this step must be in the file
+            // before the index entry that counts them
+            self.data_file.flush().await?;
             let index_data =
                 write_varint64(self.data_cursor - self.indexs.last().unwrap().file_index);
             self.index_file
